@@ -23,7 +23,7 @@ import c16_objmodel as om
 INST = os.path.join(HERE, "c18_inst.C")
 LIB_DIRS = ["src/kernel/gmp++", "src/kernel/integer", "src/kernel/rational", "src/kernel/memory", "src/kernel/system", "src/kernel/bstruct"]
 SKIP_C = {"gmp++_int.C"}              # only #includes the other gmp++_int_*.C files
-VERSION = "c18-values-v13"
+VERSION = "c18-values-v14"
 
 # ---- what a write to a static may be.  Anything that is not matched here is reported (site = the function, klass = the statics).
 # (regular expression on "Class::function", set of statics or None = any, category, reason)
@@ -366,6 +366,25 @@ def build(log=None):
         s = an.summary(b)
         cm = b.get("kind") == "CXXMethodDecl" and is_const and b.get("storageClass") != "static"
         eff, via = classify_effects(s["effects"], cm)
+        # copy constructor / copy assignment: the SOURCE parameter is the shared object; a const member of the source (or of one of its
+        # members) that writes through mutable / a cast (a generator drawn from, a lazily filled cache) is a write to the shared object
+        cpar = None
+        if b.get("kind") == "CXXConstructorDecl" or (b.get("kind") == "CXXMethodDecl" and b.get("name") == "operator="):
+            cpar = om.is_copy_param(idx, b, (idx.cls_of.get(b["id"]) or {}).get("name") or "")
+        if cpar is not None:
+            for cid, recv, cname, _ in an.info(b).calls:
+                if recv is None or recv.root != "param" or recv.name != cpar.get("name") or not cid:
+                    continue
+                cb = idx.body(cid)
+                if cb is None:
+                    continue
+                for e in an.summary(cb)["effects"]:
+                    if e["kind"] == "own_write" and e.get("path") is not None:
+                        t = ("WOwn", "source:" + ".".join(list(recv.members) + list(e["path"])))
+                        if t not in eff:
+                            eff.append(t)
+                            via[t] = "%s <- %s" % (b.get("name"), " <- ".join(e.get("via", [])[-2:]))
+            eff = sorted(eff)
         fn = (own + "::" if own else "") + (b.get("name") or "?")
         ops.append({"fn": fn, "site": (own + "::" if own else "") + sig, "kind": b.get("kind"), "effects": [list(t) for t in eff],
                     "via": {"%s:%s" % t: v for t, v in via.items()}})
